@@ -113,7 +113,9 @@ pub fn eval1<T: Flt>(interp: &dyn I1<T>, qs: &[f64], ep: usize, lanes: usize, tr
                 }
                 _ => (vec![nq], QDim::Dyn),
             };
-            let qa = ndarray::ArrayD::from_shape_vec(ndarray::IxDyn(&qshape), qt).unwrap();
+            // the memory layout of the query array is varied as a deterministic function of its content
+            let hq = qs.iter().fold(0x77u64, |h, q| crate::common::splitmix(h ^ q.to_bits()));
+            let qa = crate::layout::realise(ndarray::ArrayD::from_shape_vec(ndarray::IxDyn(&qshape), qt).unwrap(), crate::layout::lay_from_hash(hq), T::of(-4.0e4));
             match interp.t_array(qa.view(), qd).unwrap() {
                 Ok(Arr { shape, v }) => {
                     let mut want = qshape.clone();
